@@ -15,7 +15,9 @@ from hyprun import CaseResult
 TOKEN = string.ascii_letters + string.digits + "-_[]{}|^`"
 TEXT = string.ascii_letters + string.digits + " -_.,;!?+*/=()[]{}<>@#$%&'\"|^~:\\"
 HOSTCH = string.ascii_lowercase + string.digits + "-."
-SVC_POOL = ["alpha.ex", "Beta.ex", "gamma.ex", "delta.ex", "eps.ex", "zeta.ex"]
+SVC_POOL = ["alpha.ex", "Beta.ex", "gamma.ex", "delta.ex", "eps.ex", "zeta.ex",
+            # names that are a prefix of / share the first character with / look like a glob for another one
+            "alpha.ex.org", "galpha.ex", "gamm?.ex"]
 IPS = ["127.0.0.1", "10.1.2.3", "192.168.0.77", "1.2.3.4", "2001:db8::1", "fe80::1:2", "0::ffff:9.8.7.6",
        "1:2:3:4:5:6:7:8", "0::1", "255.255.255.255", "2001:0:0:1::2"]
 
@@ -87,6 +89,9 @@ def reply_s(draw, kinds):
         return "OK "
     if k == "NO":
         return "NO " + draw(text_s)
+    if k == "NOL":
+        # a refusal whose text does not fit any output buffer (the verdict is still due, however it is cut)
+        return "NO " + draw(st.sampled_from(["x", "go away ", "A:"])) * draw(st.sampled_from([340, 520, 1100]))
     if k == "AGAIN":
         return "AGAIN " + draw(text_s)
     if k == "MORE":
@@ -118,6 +123,7 @@ REPLY_KINDS = {
     "C02": ["OK", "OK", "OKA", "OKA", "OKA", "OKE", "OKE", "AGAIN", "MORE", "NO", "BAD"],
     "C03": ["OK", "OK", "OKA", "OKA", "OKA", "OKA", "AGAIN", "MORE", "OKE", "BAD"],
     "C05": ["OK", "OKA", "OKA", "OKA", "NO", "NO", "AGAIN", "AGAIN", "MORE", "MORE", "OKE"],
+    "C10": ["OK", "OK", "OKA", "OKA", "NO", "AGAIN", "MORE", "OKE", "BAD", "NOL"],
 }
 
 
@@ -144,7 +150,7 @@ def conf_s(draw, pid, tier):
     rules = []
     k = draw(st.integers(0, 5))
     if k == 0:
-        rules = [["r1", {"class": "c1", "hostname": "*.example.org"}], ["r2", {"class": "c2"}]]
+        rules = [["r1", {"class": "c1", "hostname": "*.example.org"}], ["r2", {"class": draw(st.sampled_from(["c2", "c2", "L" * 62, "L" * 63, "L" * 64, "L" * 90]))}]]
     elif k == 1:
         # rules that upgrade an untrusted (~) ident to the claimed user name at acceptance time
         rules = [["r1", {"class": "c1", "hostname": "*.example.org", "trust_username": "yes"}], ["r2", {"class": "c2", "trust_username": "true"}]]
@@ -325,7 +331,11 @@ def history_s(draw, pid, tier, conf=None, max_clients=None, distinct_ids=False, 
             # extra rounds: a further (usually well-formed) password followed by another
             # reply per service - reaches re-login / challenge-response / second-stamp states
             for _ in range(draw(st.sampled_from([0, 0, 1, 1, 2]))):
-                sc.append(["P", cid, draw(password_s((9, 1) + tuple(pww[2:])))])
+                prev = [e_ for e_ in sc if e_[0] == "P"]
+                if prev and draw(st.integers(0, 3)) == 0:
+                    sc.append(list(prev[-1]))          # the very same credentials once more (a retry)
+                else:
+                    sc.append(["P", cid, draw(password_s((9, 1) + tuple(pww[2:])))])
                 for s in draw(st.permutations([s[0] for s in conf["services"]])):
                     if draw(st.integers(0, 4)) > 0:
                         sc.append(["X", cid, s, draw(reply_s(rkinds)), "cur"])
